@@ -28,6 +28,13 @@ impl C08 {
     }
 }
 
+fn hash_of<T: std::hash::Hash>(v: &T) -> u64 {
+    use std::hash::Hasher;
+    let mut s = std::collections::hash_map::DefaultHasher::new();
+    v.hash(&mut s);
+    s.finish()
+}
+
 /// types whose re-encoding is compared bit for bit (under the reserved-bit mask) with the input
 fn byte_exact(name: &str) -> bool {
     !matches!(
@@ -260,6 +267,12 @@ impl C08 {
                     viol(rep, "read_differs", format!("read(encode(v)) = {} (cursor {}), v = {}", r.value, read_pos, d.value));
                     return;
                 }
+            }
+            // `IpHeaders::from_slice` takes an IPv6 payload length of 0 as "the rest of the slice"
+            // (documented); a reader has no slice length to fall back to, so the two doors
+            // legitimately differ there
+            Err(_) if t.name == "IpHeaders" && enc.len() >= 6 && enc[0] >> 4 == 6 && enc[4] == 0 && enc[5] == 0 => {
+                rep.count("bytes.ipv6_zero_payload_len_read_not_comparable");
             }
             Err(e) => {
                 viol(rep, "read_rejects_reencoding", format!("{:?}", e));
@@ -750,6 +763,10 @@ impl C08 {
             h.set_options(&small).unwrap();
             let mut fresh = Ipv4Header::new(0, 1, IpNumber(6), [1; 4], [2; 4]).unwrap();
             fresh.set_options(&small).unwrap();
+            // equal values hash and order alike (stale bytes behind the live options take no part)
+            if h == fresh && (hash_of(&h) != hash_of(&fresh) || h.cmp(&fresh) != std::cmp::Ordering::Equal || hash_of(&h.options) != hash_of(&fresh.options) || h.options.cmp(&fresh.options) != std::cmp::Ordering::Equal) {
+                rep.violation("setters|Ipv4Header|hash_or_ord_of_equal_values_differ", format!("grow {} then shrink {}", big.len(), small.len()), &h.to_bytes());
+            }
             if h != fresh || h.to_bytes() != fresh.to_bytes() {
                 rep.violation("setters|Ipv4Header::set_options|stale", format!("grow {} then shrink {}", big.len(), small.len()), &h.to_bytes());
             } else {
@@ -764,6 +781,9 @@ impl C08 {
             t.set_options_raw(&smallt).unwrap();
             let mut fresh = TcpHeader::new(1, 2, 3, 4);
             fresh.set_options_raw(&smallt).unwrap();
+            if t == fresh && (hash_of(&t) != hash_of(&fresh) || t.cmp(&fresh) != std::cmp::Ordering::Equal) {
+                rep.violation("setters|TcpHeader|hash_or_ord_of_equal_values_differ", format!("grow {} then shrink {}", bigt.len(), smallt.len()), &t.to_bytes());
+            }
             if t != fresh || t.to_bytes() != fresh.to_bytes() || TcpHeader::from_slice(&t.to_bytes()).map(|x| x.0 != t).unwrap_or(true) {
                 rep.violation("setters|TcpHeader::set_options_raw|stale", format!("grow {} then shrink {}", bigt.len(), smallt.len()), &t.to_bytes());
             } else {
@@ -779,6 +799,9 @@ impl C08 {
             p.set_protocol_addrs(&ps, &pt).unwrap();
             let fresh = ArpPacket::new(ArpHardwareId(1), EtherType(0x0800), ArpOperation(1), &s, &ps, &t2, &pt).unwrap();
             rep.evals += 1;
+            if p == fresh && hash_of(&p) != hash_of(&fresh) {
+                rep.violation("setters|ArpPacket|hash_of_equal_values_differ", format!("grow {} then shrink {}", hl, hs), &p.to_bytes());
+            }
             if p != fresh || p.to_bytes() != fresh.to_bytes() || ArpPacket::from_slice(&p.to_bytes()).map(|x| x != p).unwrap_or(true) {
                 rep.violation("setters|ArpPacket::set_hw_addrs|stale", format!("grow {} then shrink {}", hl, hs), &p.to_bytes());
             } else {
